@@ -360,9 +360,39 @@ def layout_name(l):
     return ",".join(f"{k}={v}" for k, v in sorted(l.items()) if k != "header_order") + (",header_order" if "header_order" in l else "")
 
 
+_polluted = [False]
+
+
+def pollute():
+    """Once per worker process, BEFORE any file is loaded: build one module of every type and edit its arrays,
+    options, bindings and note map in place, then throw it away.  A file that omits an optional chunk must still
+    load with the DOCUMENTED default, not with whatever an earlier object left in a shared default."""
+    if _polluted[0]:
+        return
+    _polluted[0] = True
+    import rv.api as rv
+    from checks import c17
+
+    for k in deviate.type_keys():
+        try:
+            m = deviate.new_module(k)
+            for op in c17.inplace_ops(k):
+                if op["k"] not in ("ip_links", "mm_uvalue"):
+                    c17.apply_inplace(m, op)
+            for path, (lo, hi, length, kind) in deviate.ARRAYS.get(m.mtype, {}).items():
+                arr = getattr(getattr(m, path), kind)
+                for i in range(0, length, 3):
+                    arr[i] = (0.5 if lo is None else (type(m).HarmonicType(5) if path == "harmonic_types" else (lo + hi) // 3))
+        except Exception:
+            pass
+    p = rv.Project()
+    p.new_module(rv.m.Generator).drawn_waveform.samples[0] = 55
+
+
 def _task(t):
     r = C.new_result()
     kind = t[0]
+    pollute()
     if kind == "fixture":
         rel = t[1]
         data = open(os.path.join(treeenv.FIXTURES, rel), "rb").read()
